@@ -129,9 +129,9 @@ PROPS["C17"] = {
     "budget_s": {"quick": 60, "thorough": 1800},
     "modes": [{"name": "", "runs": {"quick": 2500, "thorough": 60000}, "chunk": 100}],
     "rule": ("one run = a stored state built by 0-12 tape-generated writes, then 5-25 read/syntax requests over all 15 read entry points (REST GET/POST check with and without status mirroring, gRPC check, REST and gRPC batch check, expand, list, namespaces, OPL syntax check), "
-             "valid and malformed, with names the server has never seen, unknown namespaces, odd max-depth values and bad page tokens. After EACH request: the SQL-seam statement log of the request contains no INSERT/UPDATE/DELETE/REPLACE/DDL, "
+             "valid and malformed, with names the server has never seen, unknown namespaces, odd max-depth values and bad page tokens; a quarter of the requests come from the hostile generator of C13 (mutated REST requests and gRPC messages with absent sub-messages, read and syntax endpoints only). After EACH request: the SQL-seam statement log of the request contains no INSERT/UPDATE/DELETE/REPLACE/DDL, "
              "and a dump of keto_relation_tuples and keto_uuid_mappings through a separate unwrapped sqlite connection is identical to before. non-trivial = the protected state has rows; distinct = hash of (initial dump, request/response history)."),
-    "probes": ["reads_ok", "reads_rejected", "probe_reads_hit_database"] + ["req_" + k for k in ["check-get", "check-get-openapi", "check-post", "check-post-openapi", "check-grpc", "batch-rest", "batch-grpc", "expand-rest", "expand-grpc", "list-rest", "list-grpc", "namespaces-rest", "namespaces-grpc", "syntax-rest", "syntax-grpc"]],
+    "probes": ["reads_ok", "reads_rejected", "probe_reads_hit_database", "req_hostile-rest", "req_hostile-grpc"] + ["req_" + k for k in ["check-get", "check-get-openapi", "check-post", "check-post-openapi", "check-grpc", "batch-rest", "batch-grpc", "expand-rest", "expand-grpc", "list-rest", "list-grpc", "namespaces-rest", "namespaces-grpc", "syntax-rest", "syntax-grpc"]],
     "real": REAL_S, "stub": STUB_S,
     "fault_kinds": {},
     "assumptions": ["the statement classifier at the SQL seam recognises write statements by their leading keyword"],
